@@ -9,7 +9,7 @@ MODEL_MODULES = ["BaizeVerif.Model.Multipart"]
 DRIVER_OPS = {
     "mp_events": "Multipart.runEvents",
     "mp_stream": "Multipart.runStream",
-    "mp_astream": "Multipart.runStream",
+    "mp_astream": "Multipart.runStream", "mp_stream_min": "Multipart.runStream", "mp_astream_min": "Multipart.runStream",
     "mp_wsgi_form": "Multipart.runWsgiForm",
     "mp_asgi_form": "Multipart.runAsgiForm",
     "mp_header": "Multipart.runHeader",
@@ -85,7 +85,7 @@ def oracle(line, out):
     if op == "mp_events":
         return _events_vs_items(out, exp)
     a = line.split(" ")
-    if op in ("mp_stream", "mp_astream"):
+    if op in M.STREAM_OPS:
         # limits are C15's business: only judge when they cannot trigger
         if int(a[3]) < len(exp["items"]) or (a[4] != "none" and int(a[4]) < exp["field_bytes"]):
             return None
@@ -193,7 +193,7 @@ def cases(rng, tier):
         for _ in range(2):
             chunks = M.rand_partition(rng, body)
             yield _ev(b, cs, chunks)
-            yield _stream(rng.choice(["mp_stream", "mp_astream"]), b, cs, 324, None, chunks)
+            yield _stream(rng.choice(["mp_stream", "mp_astream", "mp_stream", "mp_astream", "mp_stream_min", "mp_astream_min"]), b, cs, 324, None, chunks)
         ne = M.rand_partition(rng, body, empties=False)
         ct = 'multipart/form-data; boundary=%s' % b.decode("latin-1")
         if rng.random() < 0.5 and b'"' not in b and b"\\" not in b:
